@@ -90,6 +90,18 @@ check('C06',
       'machine-checked proof in Coq (Q) with generated constant + correspondence run + source tracing monitor',
       'DESIGN.md 5 C06')
 
+check('C13',
+      'Coq theorems (Props/C13.v) over R with s = sqrt 2, about definitions written once over an abstract carrier (Model/Pol.v): both '
+      'conversions preserve |a|^2+|b|^2, each undoes the other, identity in the own basis, Stokes from the linear branch are the '
+      'documented I,Q,U,V formulas, the circular branch applied to to_circular(x,y) gives the same Stokes, I^2 = Q^2+U^2+V^2, I >= 0, '
+      'I = sum of intensities, component names map to indices 0..3 (GENERATED _stokes_ids). The same Gallina terms, instantiated with '
+      'primitive binary64 floats, are evaluated by vm_compute against the implementation on sample elements; the monitor evaluates the '
+      'documented formulas in longdouble on every element, for NumPy and Dask data.',
+      'Trusted: Coq kernel, stdlib real-number axioms (sig_forall_dec, sig_not_dec, functional_extensionality_dep, classic), kernel float '
+      'primitives for the executing instance, T2; numpy arithmetic within 16-24 ulp of the formulas.',
+      'machine-checked proof in Coq (R) of a carrier-generic model + binary64 instance evaluated against the code',
+      'DESIGN.md 5 C13')
+
 ALL = [f'C{i:02d}' for i in range(1, 21)]
 
 def main():
